@@ -910,8 +910,13 @@ func markOp(m string) chainOp { return chainOp{Name: "mark " + m, Kind: "mark", 
 
 func init() {
 	Registry["C13"] = func(c *Ctx) {
-		c.R.Rule = "breadth-first search over histories of <= n operations from {edit (output of x unchanged), edit (output changes), grog taint //p:x | //p:y | //p/..., grog build, grog build --enable-cache=false, grog build with the taint-clearing goroutine delayed} on the chain workspace (x->y->z, x->d->e, w with output checks, and g: no outputs, always tagged no-cache) by the REAL binary, in three universes (no-cache tag on nobody / x / y); after every build the executed set (trace written by the commands) is compared with a reference model of the documented rules: tainted => executed once, then clean; no-cache => executed in every build; cache disabled => everything executes; dependants re-execute only if the re-executed target's output bytes changed. A second search (one operation deeper) combines grog taint with an edit of the tainted target's own input (the taint is consumed by the execution the edit causes) and with executions that fail (non-zero exit; exit 0 without the declared output; thorough: failing output check): a failed execution does not consume the taint. Taint isolation: 9 targets whose labels differ only in where / : _ - . sit, everything cached; every ordered pair (taint X; build Y: nothing runs; build X: exactly X runs; build X: nothing; build //...: nothing) and every unordered pair (taint both; build //...: exactly both; again: nothing). Non-trivial = a build that executed some but not all targets."
+		c.R.Rule = "breadth-first search over histories of <= n operations from {edit (output of x unchanged), edit (output changes), grog taint //p:x | //p:y | //p/..., grog build, grog build --enable-cache=false, grog build with the taint-clearing goroutine delayed} on the chain workspace (x->y->z, x->d->e, w with output checks, and g: no outputs, always tagged no-cache) by the REAL binary, in three universes (no-cache tag on nobody / x / y); after every build the executed set (trace written by the commands) is compared with a reference model of the documented rules: tainted => executed once, then clean; no-cache => executed in every build; cache disabled => everything executes; dependants re-execute only if the re-executed target's output bytes changed. A second search (one operation deeper) combines grog taint with an edit of the tainted target's own input (the taint is consumed by the execution the edit causes) and with executions that fail (non-zero exit; exit 0 without the declared output; thorough: failing output check): a failed execution does not consume the taint. Taint isolation: 9 targets whose labels differ only in where / : _ - . sit, everything cached; every ordered pair (taint X; build Y: nothing runs; build X: exactly X runs; build X: nothing; build //...: nothing) and every unordered pair (taint both; build //...: exactly both; again: nothing). Non-trivial = a build that executed some but not all targets. Through an alias: dependants of a no-cache target and of a tainted target that reach them through aliases (and one direct control), the re-executed targets copy an external value: dependants are executed exactly when that output changed and copy the current value (both modes, four builds)."
 		c.R.Assume("after a build with the cache disabled (or of a no-cache target) the model makes no prediction for the affected states until they were built normally again (the documentation does not specify it)", "the detached goroutine that clears a taint has two schedules (before / after process exit): the adverse one is forced by delaying TaintCache.Clear by 1.5 s (a slow cache backend; grog idles about 0.5 s before exiting) in a second binary built through the overlay")
+		if os.Getenv("VERIF_PART") == "through-alias" { // development aid: these two scripted parts alone
+			c13NoCacheTool(c)
+			c13ThroughAlias(c)
+			return
+		}
 		chainCheck("C13", []string{"C13:"}, 4, 5, func(e *chainEngine, thorough bool) {
 			e.noCache = []string{"", "x", "y"}
 			e.ops = []chainOp{opEditAppend, opEditFirst, opTaintX, opTaintY, opTaintD, opBuild, opBuildNoC, opBuildSlow}
@@ -927,6 +932,7 @@ func init() {
 			e.ops = []chainOp{opEditFirst, opBuild}
 		})(c)
 		c13NoCacheTool(c)
+		c13ThroughAlias(c)
 		// second pass: taints x failing executions (the taint is consumed by a SUCCESSFUL execution only)
 		chainCheck("C13", []string{"C13:", "C05:failed-target-not-attempted-again"}, 5, 6, func(e *chainEngine, thorough bool) {
 			e.ops = []chainOp{opTaintY, markOp("fail-y-noout"), markOp("fail-y-exit"), opEditY, opBuild}
